@@ -152,6 +152,9 @@ func LoopTick() {
 
 func sys() { looptick = 0; Syscalls++ }
 
+// LoopReset restarts the livelock counter (enumerators that call proxy code without any simulated syscall).
+func LoopReset() { looptick = 0 }
+
 // --- clock ---
 
 func Now() time.Time                  { clock = clock.Add(time.Nanosecond); return clock }
